@@ -59,6 +59,7 @@ func TestMeasureRandom(t *testing.T) {
 		m, twin := newMeasurement(kind, p), newMeasurement(kind, p)
 		w.write(J{"ev": "Reset", "trace": k, "cfg": J{"kind": kind}})
 		nops := r.between(10, 80)
+		lastX := 1.0
 		for i := 0; i < nops; i++ {
 			if r.chance(1, 12) {
 				m.Reset()
@@ -99,7 +100,11 @@ func TestMeasureRandom(t *testing.T) {
 				continue
 			}
 			var x float64
-			switch r.intn(4) {
+			switch r.intn(6) {
+			case 4:
+				x = lastX // a constant stream: the stored value still moves by an ulp or two
+			case 5:
+				x = lastX * (1 + float64(r.between(1, 9))*1e-13) // sub-nanosecond jitter
 			case 0:
 				x = float64(r.between(1, 10))
 			case 1:
@@ -109,6 +114,10 @@ func TestMeasureRandom(t *testing.T) {
 			default:
 				x = float64(r.between(1, 1000)) * 1e6
 			}
+			if r.chance(1, 5) {
+				x /= 1e9 // seconds instead of nanoseconds
+			}
+			lastX = x
 			before := m.Get()
 			val, flag := m.Add(x)
 			after := m.Get()
